@@ -268,7 +268,7 @@ _HOOKS = []
 
 
 def cases(tier, seed):
-    n = 120 if tier == "quick" else 4000
+    n = 120 if tier == "quick" else 8000
     for i in range(n):
         yield {"kind": "opts", "seed": seed * 7368787 + i, "sample": i % 60 == 0}
     ex = sorted(glob.glob(os.path.join(boot.REPO, "examples", "*", "*.bas")))
